@@ -361,6 +361,35 @@ struct Checker {
             prior += (prior.empty() ? "" : ".") + std::to_string(p);
         }
     }
+    // The builder object itself: a model that was reset in the middle of another sequence, and two models alive and fed alternately,
+    // must cut a sequence exactly where a fresh model cuts it (no state shared between objects or left over by reset()).
+    void model_objects(const std::vector<K> &a, const std::vector<K> &b, size_t eps, const std::string &desc) {
+        using Model = pgm::internal::OptimalPiecewiseLinearModel<K, size_t>;
+        auto distinct = [](const std::vector<K> &v) { std::vector<K> d; for (K x : v) if (d.empty() || d.back() != x) d.push_back(x); return d; };
+        std::vector<K> pa = distinct(a), pb = distinct(b);
+        auto feed = [](Model &m, K x, size_t y, std::vector<K> &cuts) { if (!m.add_point(x, y)) { cuts.push_back(m.get_segment().get_first_x()); m.add_point(x, y); } };
+        auto fresh = [&](const std::vector<K> &p) { Model m(eps); std::vector<K> cuts; for (size_t i = 0; i < p.size(); ++i) feed(m, p[i], i, cuts); cuts.push_back(m.get_segment().get_first_x()); return cuts; };
+        std::string cs = case_of(desc, eps, "objects");
+        run.set_case(cs); run.add(cn.arrays);
+        try {
+            auto ra = fresh(pa), rb = fresh(pb);
+            {   // two models alive at once, fed alternately
+                Model m1(eps), m2(eps); std::vector<K> c1, c2;
+                for (size_t i = 0; i < std::max(pa.size(), pb.size()); ++i) { if (i < pa.size()) feed(m1, pa[i], i, c1); if (i < pb.size()) feed(m2, pb[i], i, c2); }
+                c1.push_back(m1.get_segment().get_first_x()); c2.push_back(m2.get_segment().get_first_x());
+                if (c1 != ra || c2 != rb) { run.violation(cs, "two builder objects fed alternately cut their sequences differently from fresh builders (" + std::to_string(c1.size()) + "/" + std::to_string(ra.size()) + " and " + std::to_string(c2.size()) + "/" + std::to_string(rb.size()) + " segments)"); return; }
+            }
+            {   // reset() in the middle of a sequence, then another sequence
+                Model m(eps); std::vector<K> junk, c;
+                for (size_t i = 0; i < pa.size() / 2 + 1 && i < pa.size(); ++i) feed(m, pa[i], i, junk);
+                m.reset();
+                for (size_t i = 0; i < pb.size(); ++i) feed(m, pb[i], i, c);
+                c.push_back(m.get_segment().get_first_x());
+                if (c != rb) { run.violation(cs, "a builder object reused after reset() cuts the sequence differently from a fresh builder (" + std::to_string(c.size()) + "/" + std::to_string(rb.size()) + " segments)"); return; }
+            }
+        } catch (const std::exception &e) { run.violation(cs, std::string("builder object threw on a strictly increasing sequence: ") + e.what()); }
+    }
+
     void family(const ks::FamilySpec &spec, size_t eps, int with_pgm, const std::string &prefix = "") {
         std::vector<K> data, queries;
         if (!ks::generate_family<K>(spec, eps, data, queries)) return;
@@ -418,7 +447,10 @@ template<typename K> void run_task(Run &run, Cn &cn, int prop, const Task &t) {
         }
     } else if (t.kind == 7) {
         // hashed irregular keys for every n in a window
-        for (long n = t.w_lo; n < t.w_hi && !run.deadline_passed(); ++n) { ks::FamilySpec s; s.kind = "irr"; s.chunks = 1; s.rep = n; s.word = n % 5; ck.family(s, t.eps, n % 4 == 0); }
+        for (long n = t.w_lo; n < t.w_hi && !run.deadline_passed(); ++n) {
+            ks::FamilySpec s; s.kind = "irr"; s.chunks = 1; s.rep = n; s.word = n % 5; ck.family(s, t.eps, n % 4 == 0);
+            if (prop == 3) { ks::FamilySpec s2 = s; s2.rep = n + 3; s2.word = (n + 1) % 5; std::vector<K> a, b, q; if (ks::generate_family<K>(s, t.eps, a, q) && ks::generate_family<K>(s2, t.eps, b, q)) ck.model_objects(a, b, t.eps, "objects=" + s.str() + "+" + s2.str()); }
+        }
     } else if (t.kind == 6) {
         // two runs meeting just before a chunk end (see keyspace.hpp)
         for (long a : {1L, 2L, 3L}) for (long L : {1L, long(t.eps) + 1, 2 * long(t.eps) + 2, 200L}) for (long so : {-1L, 0L, 1L, 50L}) {
@@ -576,7 +608,7 @@ int main(int argc, char **argv) {
     ev.states_counter = "arrays_segmented"; ev.transitions_counter = prop == 3 ? "point_vs_line_checks" : "maximality_checks_against_exact_oracle";
     ev.nontrivial_counter = "arrays_with_2plus_distinct_keys";
     ev.rule = std::string("every non-decreasing key sequence of length 1..") + std::to_string(N) + " over each 10-value palette, key types u32/i32/u64/i64/u8/i16/long long/unsigned long long" + (prop == 3 ? "/float/double" : "") +
-              ", epsilon 0..3, fed to make_segmentation; seam-window family (n=2^15(+delta), all 4096 six-letter words over {dup,+1,+2,+65536} at every chunk seam) hashed irregular keys for every n in 9..400, epsilon 1/2/8; smooth convex and concave key sets (i^2 and sqrt-shaped, 1.5 million keys) with epsilon 1024 (segments of more than 2^16 points); seam-window members through make_segmentation_par with the chunk count answered by the harness (also as a history 8,1,2,20,3,8,1 of thread counts inside one process; processors = threads, more threads than processors, fewer threads than processors: c = min of the two); block grammar (1 block x rep, 2 blocks) for epsilon in {1,8,64" + (thorough ? ",1024" : "") + "}. " +
+              ", epsilon 0..3, fed to make_segmentation; seam-window family (n=2^15(+delta), all 4096 six-letter words over {dup,+1,+2,+65536} at every chunk seam) hashed irregular keys for every n in 9..400, epsilon 1/2/8 (for C03 also through builder objects that are reused after reset() or alive two at a time); smooth convex and concave key sets (i^2 and sqrt-shaped, 1.5 million keys) with epsilon 1024 (segments of more than 2^16 points); seam-window members through make_segmentation_par with the chunk count answered by the harness (also as a history 8,1,2,20,3,8,1 of thread counts inside one process; processors = threads, more threads than processors, fewer threads than processors: c = min of the two); block grammar (1 block x rep, 2 blocks) for epsilon in {1,8,64" + (thorough ? ",1024" : "") + "}. " +
               (prop == 3 ? "Each point recorded by hook H1 is evaluated against the line reported for its segment (exact 128-bit rational arithmetic for integer keys, long double + stated tolerance for floating keys). "
                          : "Each builder call's partition is compared with the greedy partition computed by an exact rational stabbing-line oracle (pairwise slope bounds), plus the optimum count, the 2*epsilon spacing of segment starts, and every upper-level call inside PGMIndex builds. ") +
               "State = one segmented array; transition = one point checked; non-trivial = at least two distinct keys.";
